@@ -1,6 +1,7 @@
 package main
 
 import (
+	"github.com/olive-io/bpmn/schema"
 	"context"
 	"fmt"
 	"math/rand"
@@ -82,6 +83,7 @@ func c02RunMode(k int, script []string, forceWindow bool, concurrentStart bool) 
 	if forceWindow {
 		dt = &delayTracer{ITracer: tracing.NewTracer(ctx0)}
 		opts.Opts = []bpmn.Option{bpmn.WithTracer(dt)}
+		opts.ForeignTracer = true
 		opts.Raw = func(t tracing.ITrace) {
 			if _, ok := t.(bpmn.FlowTrace); ok {
 				atomic.StoreInt32(&dt.seen, 1)
@@ -373,6 +375,125 @@ func runC02(env *Env) {
 	// completion is not reported while a token is still inside a sub-process that another token has already left
 	// (two tokens in one sub-process at overlapping times: the activations' monitors must not see each other's end)
 	twoTokensOneSubProcess(env, rep, "C02-early-completion", 8)
+	c02SharedTracer(env, rep, 4)
 	env.WriteCases(rep, "", "Corr.C02corr", "nat * list nat * nat * nat", items, "c02_mismatches")
 	env.WriteReport(rep)
+}
+
+// c02SharedTracer: two instances on ONE tracer (an application-wide tracer given with WithTracer). Instance A has two
+// start events that are fired one at a time; while only the first has fired and its token is gone, instance B starts,
+// runs and completes. A is not complete before its second start event has fired and that token is consumed, and it
+// emits exactly one cease-flow trace.
+func c02SharedTracer(env *Env, rep *Report, rounds int) {
+	for r := 0; r < rounds && !rep.Saturated(); r++ {
+		cs := fmt.Sprintf("two instances on one shared tracer; A's two start events fired one at a time, B runs in between (round %d)", r)
+		env.Current(cs)
+		ctx, cancel := context.WithCancel(context.Background())
+		tr := tracing.NewTracer(ctx)
+		defsA, err := ParseDefs(c02Prog(2).XML(""))
+		must(err)
+		pb := &Prog{}
+		pb.Node("start", "bs")
+		pb.Node("task", "BT")
+		pb.Node("end", "be")
+		pb.Flow("bs", "BT", "")
+		pb.Flow("BT", "be", "")
+		defsB, err := ParseDefs(pb.XML(""))
+		must(err)
+		mk := func(defs *schema.Definitions) *bpmn.Process {
+			var pe *schema.Process
+			for i := range *defs.Processes() {
+				pe = &(*defs.Processes())[i]
+			}
+			p, err := bpmn.NewProcess(pe, defs, bpmn.WithContext(ctx), bpmn.WithTracer(tr), bpmn.WithIdGenerator(sharedGen))
+			must(err)
+			return p
+		}
+		A, B := mk(defsA), mk(defsB)
+		// one observer of the shared tracer: task requests by node id, cease-flow traces by instance
+		var mu sync.Mutex
+		tasks := map[string]bpmn.TaskTrace{}
+		ceases := map[string]int{}
+		ch := tr.SubscribeChannel(make(chan tracing.ITrace, 256))
+		go func() {
+			for t := range ch {
+				inst := ""
+				if it, ok := t.(bpmn.InstanceTrace); ok {
+					inst = it.InstanceId.String()
+				}
+				switch x := tracing.Unwrap(t).(type) {
+				case bpmn.TaskTrace:
+					mu.Lock()
+					tasks[nodeId(x.GetActivity().Element())] = x
+					mu.Unlock()
+				case bpmn.CeaseFlowTrace:
+					mu.Lock()
+					ceases[inst]++
+					mu.Unlock()
+				}
+			}
+		}()
+		answer := func(node string) bool {
+			dl := time.Now().Add(tmoStep)
+			for time.Now().Before(dl) {
+				mu.Lock()
+				t, ok := tasks[node]
+				delete(tasks, node)
+				mu.Unlock()
+				if ok {
+					t.Do()
+					return true
+				}
+				time.Sleep(200 * time.Microsecond)
+			}
+			return false
+		}
+		complete := func(p *bpmn.Process, d time.Duration) bool {
+			c, cc := context.WithTimeout(context.Background(), d)
+			defer cc()
+			return p.WaitUntilComplete(c)
+		}
+		rep.Evaluations++
+		rep.Nontrivial++
+		rep.Count("shared_tracer")
+		fail := func(key, msg string) { rep.Violate(key, cs, msg) }
+		ses := A.Element().StartEvents()
+		ok := true
+		if err := A.StartWith(ctx, &(*ses)[0]); err != nil || !answer("T0") {
+			fail("C02-start", "A: first start event / its task did not run")
+			ok = false
+		}
+		if ok {
+			time.Sleep(5 * time.Millisecond)
+			if err := B.StartAll(ctx); err != nil || !answer("BT") || !complete(B, tmoStep) {
+				fail("C02-no-completion", "B (one start event, one task) did not complete on the shared tracer")
+				ok = false
+			}
+		}
+		if ok {
+			if complete(A, 150*time.Millisecond) {
+				fail("C02-early-completion", "A reported completion although its second start event has not fired (another instance on the same tracer started and completed meanwhile)")
+				ok = false
+			}
+		}
+		if ok {
+			if err := A.StartWith(ctx, &(*ses)[1]); err != nil || !answer("T1") || !complete(A, tmoStep) {
+				fail("C02-no-completion", "A did not complete after its second start event fired and its task was answered")
+				ok = false
+			}
+		}
+		if ok {
+			time.Sleep(5 * time.Millisecond)
+			mu.Lock()
+			n := 0
+			for _, c := range ceases {
+				n += c
+			}
+			mu.Unlock()
+			if n != 2 {
+				fail("C02-cease", fmt.Sprintf("%d cease-flow traces for two instances, expected one each", n))
+			}
+		}
+		cancel()
+	}
 }
